@@ -3,11 +3,11 @@ package main
 // Rules shared by C08 and C09: E-ORD on decideOnStep, E-SYM sibling comparison of Global/Local.
 
 import (
-	"os"
 	"fmt"
 	"go/constant"
 	"go/token"
 	"go/types"
+	"os"
 	"sort"
 	"strings"
 
@@ -1279,7 +1279,9 @@ func rulesTraceFollowsFill(c *Ctx, r *Report) {
 	}
 	var cellSym *Sym
 	for _, v := range rets[0].Results[1:3] {
-		for _, e := range l.es.expr(v).find(func(s *Sym) bool { return s.Op == "extract:1" && len(s.Args) == 1 && s.Args[0].Val == ssa.Value(l.trace) }) {
+		for _, e := range l.es.expr(v).find(func(s *Sym) bool {
+			return s.Op == "extract:1" && len(s.Args) == 1 && s.Args[0].Val == ssa.Value(l.trace)
+		}) {
 			cellSym = e
 		}
 	}
